@@ -209,6 +209,10 @@ func (s *sim) runN(id string) int {
 		return 0
 	}
 	n, ok := s.runNum[id]
+	if !ok && strings.HasPrefix(id, "unknown-run-") {
+		// a scenario addressed a run number that does not exist (yet): no number is allocated for it
+		return atoi(strings.TrimPrefix(id, "unknown-run-"))
+	}
 	if !ok {
 		n = s.nextRun
 		s.nextRun++
@@ -593,7 +597,13 @@ func (t simTimeouts) List(ctx context.Context, wf string) ([]workflow.TimeoutRec
 func (t simTimeouts) ListValid(ctx context.Context, wf string, status int, now time.Time) ([]workflow.TimeoutRecord, error) {
 	s := t.s
 	p := procOf(ctx)
+	// The caller read the clock immediately before this call; the gate below may hold the call across clock advances
+	// of the scenario. The reading is therefore re-based to the moment the call is granted, keeping whatever offset
+	// the caller applied to the clock (zero for the code as written), so that a caller passing a wrong instant is
+	// still observed.
+	offset := now.Sub(simBase.Add(time.Duration(s.now)))
 	d := s.enter(p, "TL", 0)
+	now = simBase.Add(time.Duration(s.now)).Add(offset)
 	var res []workflow.TimeoutRecord
 	var ids []string
 	for _, x := range s.timers {
